@@ -21,8 +21,8 @@ CFG = dict(
     assumptions=['structural theorems assume of the six hash functions only their output length (hashes_ok); '
                  'C16_twelve_sets_* derives it from the digest lengths of SHA-256/SHA-512/SHAKE256/HMAC',
                  'the FIPS 205 equalities assume fips_wf of the parameter record (proved for the twelve sets) and that the family over address records agrees pointwise with a family over 32-byte ADRS strings (hashes_agree; proved for hash.go\'s three instantiations against FIPS 205 section 11 from the SHA-256 / SHA-512 digest lengths); no premise on any input',
-                 'rejection of a modified signature is proved as a reduction (premises hashes_ok, params_wf, hashes_wfb, digits_wf): two accepted signatures with the same digest selectors have equal bodies, or the LOCATED WOTS+ switch sig_switch (a boolean of the two signatures) is true, or a same-tweak collision of F/H/T_l on different equal-length inputs exists; the collision disjunct is an existential proved constructively (the proof is the extractor); '
-                 'modifications that change the FORS indices but keep (idx_tree, idx_leaf) are reduced to the explicit target-subset event (per-tree crossing openings); that this event is infeasible rests on target-subset resilience of H_msg and PRF secrecy (not expressible as a hash law here); digests selecting another (idx_tree, idx_leaf), and a modified PK.seed, are checked by the correspondence and the direct oracle only'],
+                 'rejection of a modified signature is proved as a reduction (premises hashes_ok, params_wf, hashes_wfb, digits_wf): two accepted signatures with the same digest selectors have equal bodies, or the LOCATED switch sig_switch, or the LOCATED collision located_collision (both booleans computed from the two signatures) is true',
+                 'digest-changing modifications are reduced to the explicit target-subset event (an accepted signature has the key holder\'s body for its own (R, message), i.e. reveals the PRF secrets at all k selected FORS leaves, or switch / collision); that this event is infeasible rests on target-subset resilience of H_msg and PRF secrecy, which are not hash laws of this development; a modified PK.seed is checked by the correspondence only'],
 )
 MANIFEST = dict(
     text='Theorems in coq/props/C16.v about an executable Gallina model of internal/signature/slhdsa that follows the Go code '
@@ -44,7 +44,7 @@ MANIFEST = dict(
          'instantiations equal FIPS 205 section 11; the twelve regenerated parameter sets equal the twelve literal rows of Table 2 (with pk/sig byte counts) and '
          'satisfy fips_wf, so all twelve sets as instantiated by hash.go compute FIPS 205 (C16_twelve_sets_compute_fips_205) and their key pairs are consistent '
          '(C16_twelve_sets_keypair_consistency). A signature of the wrong length is rejected by verifyInternal, verify and tink_verify; tink_verify accepts exactly '
-         'prefix || s with s accepted by verify. Modified signatures (repaired after the second audit: the WOTS+ event is now LOCATED, a boolean sig_switch computed from the two given signatures; the earlier unlocated existential was true for free): under hashes_ok, params_wf, hash outputs being byte strings (hashes_wfb) and digits_wf (len1*lg_w = 8n, 1 <= lg_w <= 25, len2*lg_w <= 32; the twelve sets satisfy it), two accepted (message, signature) pairs under one key whose digests select the same FORS indices / tree / leaf have equal bodies SIG_FORS || SIG_HT, or sig_switch is true of them (at some hypertree layer the WOTS+ parts of their XMSS blocks lead to the same WOTS+ public key although the base-w digit strings, checksum included, of the values signed there differ), or a same-tweak collision of F, H or T_l exists (different inputs, equal positive length) -- C16_two_accepted_signatures_reduction, C16_modified_signature_reduction at the three layers, C16_twelve_sets_modified_signature_reduction from stdlib-primitive laws only. A located switch means chain walking in BOTH directions (C16_located_switch_is_chain_walking_both_ways: some chain value of sig\' is a strict forward F-image of sig\'s and some chain value of sig is a strict forward image of sig\'\'s, with explicit chain indices and step counts, or a collision), because WOTS+ digit strings form an antichain (C16_wots_digit_strings_are_an_antichain). C16_unlocated_switch_would_be_free records why the event must be located. Examples: on the toy family a modified signature is accepted with sig_switch = false and an explicit H collision; another accepted pair (made with the secret seed) has sig_switch = true. Modifications that change the FORS indices but not the hypertree leaf (C16_changed_fors_indices_target_subset_reduction, from C16_two_merkle_openings_cross): two accepted pairs whose digests select the same (idx_tree, idx_leaf) and ARBITRARY FORS indices have equal hypertree parts and, for every FORS tree, either the same index with the same revealed value and path, or crossing openings (the node the second signature computes from its revealed leaf equals an authentication node of the first, and vice versa) -- the explicit target-subset event -- or the located switch, or a collision. The model is tied to the code by running the extracted model over a stdlib hash oracle and tink-go on the '
+         'prefix || s with s accepted by verify. Modified signatures (repaired after the second and third audits: BOTH events are now LOCATED booleans computed from the two given signatures; the earlier unlocated existentials were true for free -- the WOTS+ one for the holder of the chain starts, the collision one by pigeonhole under the output laws): under hashes_ok, params_wf, hashes_wfb (outputs are byte strings) and digits_wf (len1*lg_w = 8n, 1 <= lg_w <= 25, len2*lg_w <= 32; the twelve sets satisfy it), two accepted (message, signature) pairs under one key whose digests select the same FORS indices / tree / leaf have equal bodies SIG_FORS || SIG_HT, or sig_switch = true (at some hypertree layer the WOTS+ parts of their XMSS blocks lead to the same WOTS+ public key although the base-w digit strings, checksum included, of the values signed there differ), or located_collision = true (the traces (function, ADRS, input) of the two verifications contain two calls of the same function among F, H, T_l with the same ADRS on different inputs of equal length with equal outputs; C16_located_collision_meaning) -- C16_two_accepted_signatures_reduction, C16_modified_signature_reduction at verifyInternal / verify / tink_verify, C16_twelve_sets_modified_signature_reduction from stdlib-primitive laws only. C16_located_switch_is_chain_walking_both_ways is stated at the layer, address and values that the function sig_switch_find computes and at the chains that first_lt computes: chain walking in both directions (explicit step counts) or the located collision; C16_wots_digit_strings_are_an_antichain. Digest-changing modifications: for a generated key pair, ANY accepted signature sig\' is compared with genuine_sig, the signature Algorithm 19 produces for the same message and randomizer R\' = sig\'[0:n] (signInternal = genuine_sig at R = PRF_msg(...)): sig\' has the genuine body, or the located switch / collision is true of the pair (C16_accepted_signature_vs_key_holders_signature); the genuine body reveals, for every one of the k FORS indices of the digest, exactly the PRF secret of that leaf (C16_genuine_body_reveals_the_prf_secrets) -- the explicit target-subset event; C16_two_merkle_openings_cross is the Merkle fact. Examples: on the toy family one accepted pair has located_collision = true and sig_switch = false (explicit H collision, both entries in the traces), another (made with the secret seed) has sig_switch = true and located_collision = false. The model is tied to the code by running the extracted model over a stdlib hash oracle and tink-go on the '
          'same inputs for all twelve sets: public key from seeds byte-identical, deterministic/randomized/Tink-API signatures byte-identical, '
          'accept/reject of genuine, modified and wrong-length signatures, messages, contexts and keys identical; the model also accepts the '
          'reference implementation\'s known-answer signatures. Keys CREATED by Tink (keyset.Manager.AddNewKeyFromParameters, seeds and id on the tape) are '
@@ -53,8 +53,8 @@ MANIFEST = dict(
     note='Trusted: Coq kernel, ExtrOcamlBasic extraction + OCaml glue, the Go harness and the stdlib oracle (Go crypto/sha256, sha512, sha3, hmac); '
          'the reading of the FIPS 205 text behind model/SlhdsaFips.v. '
          'The implementation model is hand-written (tie = correspondence on the explored inputs; the parameter tables are regenerated by the translator and tied to Table 2). '
-         'The collision / switch conclusions are existential statements proved constructively (closed under the global context): the proof is the extractor. '
-         'Modifications whose digest selects another hypertree leaf are checked, not proved. In the quick tier the s sets are covered by '
+         'The collision and switch conclusions are booleans computed from the two signatures (located_collision, sig_switch), not existentials. '
+         'In the quick tier the s sets are covered by '
          'verification of Tink signatures and one randomly chosen s-set key generation; s-set signing is compared in the thorough tier only '
          '(about 2-4 million oracle calls each). uint32 overflow of node indices (i<<1, (i<<a)+idx) is not modelled: it cannot occur for hp, a < 32.',
     technique='Coq proof (induction over chain length, tree height, climb steps, hypertree layers; arithmetic by lia/nia) about an executable Gallina '
